@@ -573,6 +573,10 @@ def getEncodingInfo(response=None, text='', log=None, url=None):  # noqa: C901
         # text must be a string (not None)
         text = ''
 
+    # the sniffers below work on characters; view a byte string as latin-1 so that
+    # every byte keeps its value (BOM bytes included)
+    sniff = text.decode('latin-1') if isinstance(text, bytes) else text
+
     encinfo = EncodingInfo()
 
     logstream = io.StringIO()
@@ -585,25 +589,25 @@ def getEncodingInfo(response=None, text='', log=None, url=None):  # noqa: C901
         texttype = _getTextTypeByMediaType(encinfo.http_media_type, log)
     else:
         # check if maybe XML or (TODO:) HTML
-        texttype = _getTextType(text, log)
+        texttype = _getTextType(sniff, log)
 
     # XML only served as application/xml ! #(also XHTML served as text/html)
     if texttype == _XML_APPLICATION_TYPE:  # or texttype == _XML_TEXT_TYPE:
         try:
-            encinfo.xml_encoding = detectXMLEncoding(text, log)
+            encinfo.xml_encoding = detectXMLEncoding(sniff, log)
         except (AttributeError, ValueError):
             encinfo.xml_encoding = None
 
     # XML (also XHTML served as text/html)
     if texttype == _HTML_TEXT_TYPE:
         try:
-            encinfo.xml_encoding = detectXMLEncoding(text, log, includeDefault=False)
+            encinfo.xml_encoding = detectXMLEncoding(sniff, log, includeDefault=False)
         except (AttributeError, ValueError):
             encinfo.xml_encoding = None
 
     # HTML
     if texttype == _HTML_TEXT_TYPE or texttype == _TEXT_TYPE:
-        encinfo.meta_media_type, encinfo.meta_encoding = getMetaInfo(text, log)
+        encinfo.meta_media_type, encinfo.meta_encoding = getMetaInfo(sniff, log)
 
     # guess
     # 1. HTTP charset?
